@@ -8,8 +8,9 @@
 (* emissions (Crew.ProcessMsg), and the record of reported changes that a  *)
 (* host applies to a store (Crew.GetChanged).                              *)
 (*                                                                         *)
-(* The model says what the code does, including three behaviours that are  *)
-(* surprising and are therefore switchable NAMED DEVIATIONS:               *)
+(* Three behaviours the code HAD are switchable shapes of the model (all    *)
+(* three were defects and are repaired; the shapes remain as negative      *)
+(* controls that TLC must refute, and so that a regression is recognised): *)
 (*   Wedge          a service machine whose native action reports an error *)
 (*                  (or, for the captain, is given a message that is not a  *)
 (*                  crew operation) returns to "start" WITH the pattern    *)
@@ -17,8 +18,10 @@
 (*                  only reacts to a request with the same values          *)
 (*                  (SioRequestIgnored of Trace_Timers.tla).               *)
 (*   MakeOnPending  "cancel": makeTimer for an id that is pending cancels  *)
-(*                  that timer and creates none (Timers.add);              *)
-(*                  "replace": the idealised behaviour.                    *)
+(*                  that timer and creates none (Timers.add, as it was);   *)
+(*                  "replace": the new timer replaces the pending one (the *)
+(*                  code now); "keep": the request is refused and the      *)
+(*                  pending timer stays (equally good for the properties). *)
 (*   FireDropsBs    a firing timer reports the timers machine's state as   *)
 (*                  {timers: map} only: bindings a wedged timers machine   *)
 (*                  holds are not part of that report.                     *)
@@ -82,6 +85,7 @@ TimersPresent(cs, msg) ==
                ELSE LET id == b["?id"][2] IN
                     IF id \in DOMAIN cs.tmap /\ MakeOnPending = "cancel"
                     THEN [cs EXCEPT !.tbs = EmptyFn, !.tmap = Drop(cs.tmap, id)]
+                    ELSE IF id \in DOMAIN cs.tmap /\ MakeOnPending = "keep" THEN Failed(cs, b)
                     ELSE [cs EXCEPT !.tbs = EmptyFn, !.gen = cs.gen + 1,
                                     !.tmap = Put(cs.tmap, id, [msg |-> b["?msg"], u |-> cs.gen + 1])]]
      ELSE IF cn # {} THEN
